@@ -75,6 +75,18 @@ pub fn generate(rng: &mut Rng, tier: &str, shard: usize, nshards: usize, out: &m
             for m in ms { emit(format!("C14\tfromf64\t{}", (sg << 63) | (ex << 52) | m), &mut n); }
         }
     }
+    // scales whose negation does not fit the i32 exponent of the float parser (tiny values must
+    // underflow towards zero, huge ones overflow to infinity), and the i32 boundary itself
+    for base in [1i64 << 31, -(1i64 << 31), 3_000_000_000, -3_000_000_000, 1 << 40, -(1 << 40), i64::MAX - 64, i64::MIN + 64] {
+        for d in [-40i64, -20, -2, -1, 0, 1, 2, 19, 20, 40] {
+            let sc = base + d;
+            for l in [1usize, 17, 26, 45, 64] {
+                let i = gen_int_len(rng, l);
+                if i == BigInt::from(0) { continue; }
+                emit(format!("C14\ttof64\t{}", show(&dec(i, sc))), &mut n);
+            }
+        }
+    }
     let total = if thorough { 3_000_000 } else { 150_000 };
     for _ in 0..total {
         match rng.below(3) {
